@@ -246,6 +246,7 @@ def run(ctx, F):
     ctx.judge(pa == want_p, "C12.pause-table", "prepare: Full and InitialMark prepare both the Immix space and the common spaces", expected=str(sorted(want_p)), found=str(sorted(pa)), where=where(prep), key="C12.pause-table|prepare")
     ctx.judge(ra == want_r, "C12.pause-table", "release: Full and FinalMark release both the Immix space and the common spaces", expected=str(sorted(want_r)), found=str(sorted(ra)), where=where(rel), key="C12.pause-table|release")
     _barrier_armed_all_spaces(ctx, F)
+    _edge_callbacks(ctx, F)
 
 
 def _barrier_armed_all_spaces(ctx, F):
@@ -279,3 +280,30 @@ def _barrier_armed_all_spaces(ctx, F):
     cs = [c for c in live_calls(ci) if c.name == "schedule_unlog_bits_op"]
     ctx.judge(any("BulkSet" in show(strip(ci.flow.arg_tree(c, 1))) for c in cs), "C12.barrier-armed-all-spaces", "ConcurrentImmix arms the common spaces at the initial mark", expected="common.schedule_unlog_bits_op(BulkSet) in prepare",
               found=str([show(strip(ci.flow.arg_tree(c, 1)))[:40] for c in cs]), where=where(ci), key="C12.barrier-armed-all-spaces|initial-mark")
+
+
+def _edge_callbacks(ctx, F):
+    """C12.visit-children: every closure handed to Scanning::scan_object_and_trace_edges as the edge tracer traces the CHILD it is
+    called with and returns that trace's answer (the binding stores it back into the field)."""
+    n = 0
+    for q, g in sorted(F.fns.items()):
+        for c in live_calls(g, name="scan_object_and_trace_edges"):
+            t = strip(g.flow.arg_tree(c, len(c.args) - 1))
+            clo = [s for s in walk(t) if s and s[0] == "agg" and s[1][0] == "closure" and s[1][1] in F.fns]
+            if len(clo) != 1:
+                continue  # a tracer object (DefaultObjectTracer), not a closure literal
+            cl = F.fns[clo[0][1][1]]
+            n += 1
+            tr = [x for x in live_calls(cl) if x.name == "trace_object"]
+            rtt = [strip(tt) for _, tt in cl.flow.return_trees()]
+            rts = [show(x) for x in rtt]
+            # the value handed back is computed FROM the child the callback was called with (trace_object(child), forward(child), ..)
+            ok = bool(rtt) and all(x and x[0] == "call" and any(strip(a) == ("arg", 2) for a in x[3]) for x in rtt) and \
+                all(show(strip(cl.flow.arg_tree(x, len(x.args) - 1))) == "arg2" for x in tr)
+            ctx.judge(ok, "C12.visit-children", "%s traces the child it is given and returns the result" % short(cl.q), expected="|child| tracer.trace_object(child)", found="traced %s returns %s" % ([show(strip(cl.flow.arg_tree(x, len(x.args) - 1)))[:30] for x in tr], [r[:60] for r in rts]),
+                      where=where(cl), key="C12.visit-children|" + cl.q)
+    ctx.floor("C12.visit-children", n, 1, "edge-tracer closures")
+    vc = F.fn("util::scanning_helper::visit_children")
+    users = {cs.fn.q for cs in callers(F, "util::scanning_helper::visit_children_non_moving")} | {cs.fn.q for cs in callers(F, "util::scanning_helper::visit_children_moving")}
+    ctx.judge(any("concurrent_marking_work" in u for u in users), "C12.visit-children", "concurrent marking scans objects through visit_children", expected="ConcurrentTraceObjects uses the helper", found=str(sorted(short(u) for u in users))[:200],
+              where=where(vc), key="C12.visit-children|used")
